@@ -62,6 +62,13 @@ class Space:
                     num[mono] = num.get(mono, 0) + coef
             if changed:
                 return self.fn("mod", R(self, num), m)
+            # mod(a + c, m) == mod(a + (c mod m), m): the constant term is reduced, so x - 180 and x + 180 and x + 540 (mod 360) are one form
+            mv = m.constval()
+            c0 = a.num.get((), Fraction(0))
+            if mv > 0 and not (0 <= c0 < mv):
+                num2 = dict(a.num)
+                num2[()] = c0 % mv
+                return self.fn("mod", R(self, num2), m)
         if name == "abs" and len(args) == 1:
             a = args[0].single_atom()
             if a is not None and self.atoms[a][0] == "fn" and self.atoms[a][1][0] in ("abs", "sqrt", "hypot"):
@@ -428,7 +435,7 @@ def family_of(name):
     return None
 
 
-def compare(sp, got, want):
+def compare(sp, got, want, nested=False):
     """True (equal) / False (definitely different) / None (undecided: uninterpreted symbols involved)"""
     if got == want:
         return True
@@ -468,6 +475,71 @@ def compare(sp, got, want):
         fam = family_of(n)
         if fam is None or not (fam & extra):
             return None       # a function of the specification that the code does without: possibly eliminated through an identity we do not know
-    if gsym <= wsym | {"pi"}:
+    if not nested and not (gsym <= wsym | {"pi"}):
+        return None
+    # Both sides are now rational expressions over atoms.  They are DEFINITELY different if they differ as polynomials over the same
+    # function atoms (treated as independent indeterminates), or if they are the SAME polynomial up to a one-to-one replacement of
+    # function atoms each of which certainly changes the value (another member of the family on the same argument: sin for cos, floor
+    # for round; or the same function on an argument that is definitely different and not related by a symmetry of the function).
+    # Anything else (log(a*b) against log(a) + log(b), an atom more or less) may hide an identity: undecided.
+    def top_fn(r):
+        out = set()
+        for poly in (r.num, r.den):
+            for mono in poly:
+                for at, _e in mono:
+                    if sp.atoms[at][0] == "fn":
+                        out.add(at)
+        return out
+    tg, tw = top_fn(got), top_fn(want)
+    only_g, only_w = sorted(tg - tw), sorted(tw - tg)
+    if not only_g and not only_w:
         return False
+    if len(only_g) != len(only_w) or len(only_g) > 4:
+        return None
+    import itertools
+    for perm in itertools.permutations(only_w):
+        mapping = dict(zip(only_g, perm))
+        if _rename(got, mapping) != want:
+            continue
+        verdicts = [_atoms_differ(sp, a_, b_) for a_, b_ in mapping.items()]
+        if all(v is True for v in verdicts):
+            return False
+    return None
+
+
+def _rename(r, mapping):
+    def poly(p):
+        out = {}
+        for mono, c in p.items():
+            m2 = tuple(sorted((mapping.get(at, at), e) for at, e in mono))
+            out[m2] = out.get(m2, 0) + c
+        return {m: c for m, c in out.items() if c != 0}
+    return R(r.sp, poly(r.num), poly(r.den) if r.den is not ONE else ONE)
+
+
+def _atoms_differ(sp, a, b):
+    """True: the two function atoms certainly denote different values; None: cannot tell"""
+    na, *xa = sp.atoms[a][1]
+    nb, *xb = sp.atoms[b][1]
+    if na != nb:
+        fam = family_of(na)
+        if fam is not None and nb in fam and len(xa) == len(xb) and all(_eq(x, y) for x, y in zip(xa, xb)):
+            return True
+        return None
+    if len(xa) != len(xb) or not all(isinstance(x, R) for x in xa + xb):
+        return None
+    if na in ("sin", "cos", "tan") and len(xa) == 1:
+        d, s_ = xa[0] - xb[0], xa[0] + xb[0]
+        if d.is_const() or s_.is_const():
+            return None                      # x and x + 2*pi*k, x and pi - x, ...
+        return True if compare(sp, xa[0], xb[0], nested=True) is False else None
+    if na == "abs" and len(xa) == 1 and xa[0] == -xb[0]:
+        return None
+    if na == "mod" and len(xa) == 2 and xa[1] == xb[1] and (xa[0] - xb[0]).is_const():
+        return None
+    if na in ("min", "max") and sorted(repr(x) for x in xa) == sorted(repr(x) for x in xb):
+        return None
+    res = [True if x == y else compare(sp, x, y, nested=True) for x, y in zip(xa, xb)]
+    if any(r_ is False for r_ in res) and all(r_ is not None for r_ in res):
+        return True
     return None
